@@ -19,6 +19,9 @@ pub struct NodeFacts {
     pub support: Vec<u64>,
     /// counts by the library's documented scheme: relative to the depth of the sub diagram
     pub counts: Vec<(u128, u128)>,
+    /// number of satisfying assignments among the 2^nvars assignments, from the structure alone
+    /// (sat(node) = (sat(lo) + sat(hi)) / 2; exact on an ordered diagram); empty when nvars > 100
+    pub sat: Vec<u128>,
 }
 
 /// structural audit of the public node table; returns the first problem
@@ -74,8 +77,18 @@ impl NodeFacts {
             depth: Vec::with_capacity(nodes.len()),
             support: Vec::with_capacity(nodes.len()),
             counts: Vec::with_capacity(nodes.len()),
+            sat: Vec::new(),
         };
+        let with_sat = nvars <= 100;
         for (i, n) in nodes.iter().enumerate() {
+            if with_sat {
+                let v = match i {
+                    0 => 0,
+                    1 => 1u128 << nvars,
+                    _ => (f.sat[n.lo().value()] + f.sat[n.hi().value()]) / 2,
+                };
+                f.sat.push(v);
+            }
             if i == 0 {
                 f.tt.push(with_tt.then(|| TT::constant(nvars, false)));
                 f.paths.push((1, 0));
@@ -210,8 +223,12 @@ pub fn audit_private(bdd: &Bdd, facts: &NodeFacts, rng: &mut Rng, counts: &mut A
         }
         let models_documented = !cfg!(feature = "adhoccounting") || cfg!(feature = "adhoccountmodels");
         if models_documented && facts.depth[*i] < 60 {
-            if let Some(tt) = &facts.tt[*i] {
-                let sat = tt.count_ones() as u128;
+            let sat_known: Option<u128> = match &facts.tt[*i] {
+                Some(tt) => Some(tt.count_ones() as u128),
+                None if facts.nvars <= 60 && !facts.sat.is_empty() => Some(facts.sat[*i]),
+                None => None,
+            };
+            if let Some(sat) = sat_known {
                 let unsat = (1u128 << facts.nvars) - sat;
                 let (c, m) = (mc.cmodels as u128, mc.models as u128);
                 if c + m == 0 || m * unsat != c * sat {
@@ -1038,6 +1055,182 @@ pub fn c13(cfg: &Cfg, rep: &mut Report) {
             c13_queries(cfg, rep, case_seed, run);
         }
     }
+    let tall = cfg.get_usize("tall_cases", (cfg.cases / 8).max(if cfg.cases > 0 { 4 } else { 0 }));
+    for i in 0..tall {
+        if rep.too_many() {
+            break;
+        }
+        c13_tall(cfg, rep, cfg.case_seed(6_000_000 + i));
+    }
+}
+
+/// Tall diagrams: 33 to 60 variables, long conjunction / disjunction / parity chains and combinations of them,
+/// so that the two children of a node differ in depth by dozens of levels and counts need more than 32 bits.
+/// Truth tables are out of reach; paths, depth and support are recounted from the public node table, and the
+/// number of satisfying assignments comes from the structure alone (NodeFacts::sat). Counts stay below 2^60.
+fn c13_tall(cfg: &Cfg, rep: &mut Report, case_seed: u64) {
+    let mut rng = Rng::new(case_seed ^ 0x7A11);
+    let nvars = rng.range(33, 60);
+    rep.evaluations += 1;
+    rep.count("tall_diagram_cases", 1);
+    let mut log: Vec<String> = Vec::new();
+    let replay = |what: String, log: &[String]| json!({"property": cfg.prop, "case_seed": case_seed.to_string(), "tall": true, "nvars": nvars, "query": what, "ops_tail": fmt_ops(log)});
+    let built = guarded(SMALL_BUDGET * 10, || {
+        let mut bdd = Bdd::new();
+        let vars: Vec<Term> = (0..nvars).map(|v| bdd.variable(Var(v))).collect();
+        let mut pool: Vec<Term> = Vec::new();
+        let mut log: Vec<String> = Vec::new();
+        let nops = rng.range(3, 14);
+        for _ in 0..nops {
+            if bdd.nodes.len() > 20_000 {
+                break;
+            }
+            let kind = rng.below(8);
+            let t = match kind {
+                0..=2 => {
+                    // chain over a long run of variables (ascending or descending fold, some literals negated)
+                    let from = rng.below(nvars / 3);
+                    let to = rng.range(from + 1, nvars - 1);
+                    let conj = rng.bool();
+                    let desc = rng.bool();
+                    let idx: Vec<usize> = if desc { (from..=to).rev().collect() } else { (from..=to).collect() };
+                    let mut acc = if conj { Term::TOP } else { Term::BOT };
+                    for v in idx {
+                        let lit = if rng.chance(1, 5) { bdd.not(vars[v]) } else { vars[v] };
+                        acc = if conj { bdd.and(acc, lit) } else { bdd.or(acc, lit) };
+                    }
+                    log.push(format!("{} chain over {}..={}", if conj { "and" } else { "or" }, from, to));
+                    acc
+                }
+                3 => {
+                    let k = rng.range(2, 9);
+                    let mut acc = Term::BOT;
+                    for _ in 0..k {
+                        acc = bdd.xor(acc, vars[rng.below(nvars)]);
+                    }
+                    log.push(format!("parity of {} variables", k));
+                    acc
+                }
+                _ if pool.len() >= 2 => {
+                    let (a, b) = (pool[rng.below(pool.len())], pool[rng.below(pool.len())]);
+                    let r = match rng.below(6) {
+                        0 => bdd.and(a, b),
+                        1 => bdd.or(a, b),
+                        2 => bdd.imp(a, b),
+                        3 => bdd.iff(a, b),
+                        4 => bdd.restrict(a, Var(rng.below(nvars)), rng.bool()),
+                        _ => bdd.not(a),
+                    };
+                    log.push(format!("{} = op({}, {})", r, a, b));
+                    r
+                }
+                _ => {
+                    let v = vars[rng.below(nvars)];
+                    log.push(format!("variable {}", v));
+                    v
+                }
+            };
+            pool.push(t);
+        }
+        (bdd, pool, log)
+    });
+    let (bdd, pool, l) = match built {
+        Ok(x) => x,
+        Err(c) => {
+            rep.violation(&format!("operation:{}", c.kind()), format!("building tall diagrams: {}", c.describe()), replay("build".into(), &log));
+            return;
+        }
+    };
+    log = l;
+    let mut counts = AuditCounts::default();
+    let mut arng = rng.fork(3);
+    let facts = match harness(|| full_audit(&bdd, nvars, &mut arng, &mut counts)) {
+        Ok(Ok(f)) => f,
+        Ok(Err(e)) => {
+            rep.violation("audit", e, replay("audit".into(), &log));
+            return;
+        }
+        Err(e) => {
+            rep.inconclusive.push(format!("audit crashed: {}", e));
+            return;
+        }
+    };
+    rep.max("tall_max_depth", facts.depth.iter().copied().max().unwrap_or(0) as u64);
+    rep.max("tall_max_child_depth_difference", bdd.nodes.iter().skip(2).map(|n| facts.depth[n.lo().value()].abs_diff(facts.depth[n.hi().value()])).max().unwrap_or(0) as u64);
+    let total: u128 = 1u128 << nvars;
+    let memo_documented = !cfg!(feature = "adhoccounting") || cfg!(feature = "adhoccountmodels");
+    let mut handles = pool.clone();
+    handles.sort();
+    handles.dedup();
+    for t in handles {
+        rep.count("handles_queried", 1);
+        let sat = facts.sat[t.value()];
+        let unsat = total - sat;
+        let mut answers: Vec<ModelCounts> = Vec::new();
+        for memo in [false, true] {
+            match guarded(SMALL_BUDGET, || bdd.paths(t, memo)) {
+                Ok(p) => {
+                    rep.count("path_counts_checked", 1);
+                    if mc(p) != facts.paths[t.value()] {
+                        rep.violation("paths-wrong", format!("paths({}, {}) = {:?}, walking the table gives {:?}", t, memo, p, facts.paths[t.value()]), replay(format!("paths({},{})", t, memo), &log));
+                        return;
+                    }
+                }
+                Err(c) => {
+                    rep.violation(&format!("paths:{}", c.kind()), c.describe(), replay(format!("paths({},{})", t, memo), &log));
+                    return;
+                }
+            }
+            if memo && !memo_documented {
+                rep.count("memoised_model_counts_skipped_as_documented", 1);
+                continue;
+            }
+            match guarded(SMALL_BUDGET, || bdd.models(t, memo)) {
+                Ok(m) => {
+                    rep.count("model_counts_checked", 1);
+                    let (c, mm) = mc(m);
+                    if c + mm == 0 || mm * unsat != c * sat {
+                        rep.violation("models-ratio-wrong", format!("models({}, {}) = {:?} but {} of 2^{} assignments satisfy the function (depth {})", t, memo, m, sat, nvars, facts.depth[t.value()]), replay(format!("models({},{})", t, memo), &log));
+                        return;
+                    }
+                    if m.more_models() != (mm >= c) {
+                        rep.violation("more-models-wrong", format!("{:?}.more_models() = {}", m, m.more_models()), replay(format!("more_models({})", t), &log));
+                        return;
+                    }
+                    answers.push(m);
+                }
+                Err(c) => {
+                    rep.violation(&format!("models:{}", c.kind()), c.describe(), replay(format!("models({},{})", t, memo), &log));
+                    return;
+                }
+            }
+        }
+        if answers.len() == 2 && answers[0] != answers[1] {
+            rep.violation("models-naive-vs-memo", format!("models({}, false) = {:?} but models({}, true) = {:?}", t, answers[0], t, answers[1]), replay(format!("models({})", t), &log));
+            return;
+        }
+        match guarded(SMALL_BUDGET, || (bdd.max_depth(t), bdd.var_dependencies(t))) {
+            Ok((d, deps)) => {
+                rep.count("depths_checked", 1);
+                if d != facts.depth[t.value()] {
+                    rep.violation("max-depth-wrong", format!("max_depth({}) = {}, longest root-to-leaf path has {} tests", t, d, facts.depth[t.value()]), replay(format!("max_depth({})", t), &log));
+                    return;
+                }
+                let mut got: Vec<usize> = deps.iter().map(|v| v.value()).collect();
+                got.sort_unstable();
+                rep.count("dependency_sets_checked", 1);
+                if got != facts.support_vec(t) {
+                    rep.violation("dependencies-wrong", format!("var_dependencies({}) = {:?}, the diagram tests {:?}", t, got, facts.support_vec(t)), replay(format!("var_dependencies({})", t), &log));
+                    return;
+                }
+            }
+            Err(c) => {
+                rep.violation(&format!("depth:{}", c.kind()), c.describe(), replay(format!("max_depth({})", t), &log));
+                return;
+            }
+        }
+    }
+    rep.nontrivial.insert(hash_str(&format!("tall{}", case_seed)));
 }
 
 fn c13_more_models(rep: &mut Report) {
